@@ -291,11 +291,11 @@ func (n *chainnode) Spread(field string) *InfluxQLNode {
 func (n *chainnode) Sum(field string) *InfluxQLNode {
 	i := newInfluxQLNode("sum", field, n.Provides(), StreamEdge, ReduceCreater{
 		CreateFloatReducer: func() (query.FloatPointAggregator, query.FloatPointEmitter) {
-			fn := query.NewFloatFuncReducer(query.FloatSumReduce, &query.FloatPoint{Value: 0})
+			fn := query.NewFloatFuncReducer(query.FloatSumReduce, &query.FloatPoint{Value: 0, Time: query.ZeroTime})
 			return fn, fn
 		},
 		CreateIntegerReducer: func() (query.IntegerPointAggregator, query.IntegerPointEmitter) {
-			fn := query.NewIntegerFuncReducer(query.IntegerSumReduce, &query.IntegerPoint{Value: 0})
+			fn := query.NewIntegerFuncReducer(query.IntegerSumReduce, &query.IntegerPoint{Value: 0, Time: query.ZeroTime})
 			return fn, fn
 		},
 		IsEmptyOK: true,
